@@ -390,7 +390,7 @@ class Ctx:
               "coverage": cov, "assumptions": self.assumptions, "wall_s": round(wall, 2),
               "violations": sum(v["instances"] for v in self.violations)}
         # evidence describes runs against /repo itself; runs against a scratch copy (VERIF_REPO) go elsewhere
-        evdir = VERIF / "evidence" if REPO.resolve() == Path("/repo") else WORK / "scratch_evidence"
+        evdir = VERIF / "evidence" if (REPO.resolve() == Path("/repo") and not self.replay) else WORK / "scratch_evidence"
         evdir.mkdir(parents=True, exist_ok=True)
         (evdir / (self.pid + ".json")).write_text(json.dumps(ev, indent=1, default=str) + "\n")
         for k in self.known:
